@@ -206,23 +206,25 @@ theorem merge_leaf_spec (comb : κ → κ → κ) (mf : List ν → Option ν) (
 
 /-! ### unflatten -/
 
-/-- **Unflatten** (any number of levels): on a well-formed fiber with at least one element whose
+/-- **Unflatten** (any number of levels): on a well-formed fiber (with or without elements) whose
     tuple coordinates are ordered lexicographically by (first component, rest) — `LexSplit`,
     true for Python tuples, see `lexSplit_coord` — `unflattenRanks` succeeds, returns a
     well-formed fiber and every point has moved to its image `splitTop` (first coordinate split
     into `l+2` coordinates), order preserved. -/
 theorem unflatten_content (dflt : ν) (hd tl : κ → κ) (hH : LexSplit hd tl) (r l : Nat)
-    (f : Tree κ ν (r + 1)) (hne : (show List (κ × Tree κ ν r) from f) ≠ []) (hw : WF (r + 1) f) :
+    (f : Tree κ ν (r + 1)) (hw : WF (r + 1) f) :
     ∃ g, unflatLv hd tl r l f = some g ∧ WF (r + 2 + l) g ∧
       content dflt (r + 2 + l) g =
         (content dflt (r + 1) f).map (fun pv => (splitTop hd tl l pv.1, pv.2)) :=
-  unflatLv_spec dflt hd tl hH r l f hne hw
+  unflatLv_spec dflt hd tl hH r l f hw
 
-/-- `self.coords[0]` of `unflattenRanks` raises on a fiber without elements (this is what makes
-    `Tensor.unflattenRanks(depth ≥ 1)` fail on a tree with an empty sub-fiber — open finding) -/
-theorem unflatten_empty_raises (hd tl : κ → κ) (r l : Nat) :
-    unflatLv (ν := ν) hd tl r l (show Tree κ ν (r + 1) from ([] : List (κ × Tree κ ν r))) = none := by
-  cases l <;> rfl
+/-- a fiber without elements is unflattened to an empty fiber (`if len(self.coords) == 0`,
+    /repo 97d752a; before that fix `self.coords[0]` raised `IndexError`, which made
+    `Tensor.unflattenRanks(depth ≥ 1)` fail on a tree with an empty sub-fiber) -/
+theorem unflatten_empty (dflt : ν) (hd tl : κ → κ) (r l : Nat) :
+    ∃ g, unflatLv (ν := ν) hd tl r l (show Tree κ ν (r + 1) from ([] : List (κ × Tree κ ν r))) = some g ∧
+      WF (r + 2 + l) g ∧ content dflt (r + 2 + l) g = [] :=
+  unflatLv_nil dflt hd tl r l
 
 /-! ### every depth -/
 
@@ -272,27 +274,18 @@ theorem flatten_tuple_mono (dflt : ν) (r l : Nat) (ar : List Nat) (f : Tree (Li
   (monoLvB_iff _ dflt r l f).2 (monoLv_tuple dflt r l ar f hw ((upperArB_iff r l ar f).1 har))
 
 /-- **Unflatten inverts flatten** (tuple / pair style, any number of levels, any payload depth):
-    for a well-formed non-empty tree with integer coordinates on the flattened ranks,
+    for a well-formed tree (empty or not) with integer coordinates on the flattened ranks,
     unflattening the flattened fiber succeeds, is well-formed and has the original's content
     (explicit defaults and empty sub-fibers of the flattened ranks are not re-created). -/
 theorem unflatten_flatten (dflt : ν) (r l : Nat) (f : Tree (List α) ν (r + 2 + l))
-    (hw : WF (r + 2 + l) f) (har' : upperArB r l (List.replicate (l + 1) 1) f = true)
-    (hne : isEmpty dflt (r + 2 + l) f = false) :
+    (hw : WF (r + 2 + l) f) (har' : upperArB r l (List.replicate (l + 1) 1) f = true) :
     ∃ g, unflatLv (fun c => c.take 1) (fun c => c.drop 1) r l (flatLv (tupleComb (α := α)) dflt r l f) = some g ∧
       WF (r + 2 + l) g ∧ content dflt (r + 2 + l) g = content dflt (r + 2 + l) f := by
   have har := (upperArB_iff r l _ f).1 har'
   have hm := monoLv_tuple dflt r l _ f hw har
   have hwf := flatLv_wf (tupleComb (α := α)) dflt r l f hw hm
   have hc := content_flatLv (tupleComb (α := α)) dflt r l f
-  have hne' : (show List (List α × Tree (List α) ν r) from flatLv (tupleComb (α := α)) dflt r l f) ≠ [] := by
-    intro h
-    have : content dflt (r + 1) (flatLv (tupleComb (α := α)) dflt r l f) = [] := by
-      show List.flatMap _ (show List (List α × Tree (List α) ν r) from flatLv tupleComb dflt r l f) = []
-      rw [h]; rfl
-    rw [hc, List.map_eq_nil_iff] at this
-    rw [(isEmpty_iff_content dflt _ f).2 this] at hne
-    cases hne
-  obtain ⟨g, hg, hgw, hgc⟩ := unflatLv_spec dflt _ _ (lexSplit_list (α := α)) r l _ hne' hwf
+  obtain ⟨g, hg, hgw, hgc⟩ := unflatLv_spec dflt _ _ (lexSplit_list (α := α)) r l _ hwf
   refine ⟨g, hg, hgw, ?_⟩
   rw [hgc, hc, List.map_map]
   conv => rhs; rw [← List.map_id (content dflt (r + 2 + l) f)]
@@ -393,43 +386,57 @@ theorem swapT_content_partial (dflt : ν) (r k : Nat) (t : Tree (List α) ν (r 
   rw [hgc]
   exact isort_perm _
 
-/-- **Unflatten at every depth** (Tensor.unflattenRanks(depth=k, levels=l+1)) — partial: stated
-    for trees in which no fiber at depth `k` is without elements (otherwise `IndexError` — open
-    finding).  The result tensor keeps the operand's default (/repo e4536c9), so both contents are
-    taken relative to the same `dflt`, whatever it is.  Then for every `k`, `l`, `r`: success, a well-formed result, every point moved to
-    its image (coordinate `k` split into `l+2` coordinates), order preserved. -/
-theorem unflattenT_content_partial (dflt : ν) (r l k : Nat) (t : Tree (List α) ν (r + 1 + k))
-    (hw : WF (r + 1 + k) t) (hsome : allEmptyAt dflt r k t = false)
-    (hsub : (subsAt (r + 1) k t).all
-      (fun s => !(show List (List α × Tree (List α) ν r) from s).isEmpty) = true) :
-    ∃ t', unflattenT (fun c => c.take 1) (fun c => c.drop 1) dflt r l k t = some t' ∧
+/-- **Unflatten at every depth** (Tensor.unflattenRanks(depth=k, levels=l+1)) — partial only in
+    that the tensor must have a declared shape or hold at least one coordinate at rank `k`
+    (otherwise `_unflattenRankIdsShape` raises `TypeError` — open finding).  Then for every `k`,
+    `l`, `r` and every well-formed tensor — empty fibers at depth `k` included (/repo 97d752a), an
+    all-empty tensor included (the guard returns an empty root) — : success, a well-formed result,
+    every point moved to its image (coordinate `k` split into `l+2` coordinates), order preserved.
+    The result keeps the operand's default (/repo e4536c9): both contents are relative to `dflt`. -/
+theorem unflattenT_content_partial (declared : Bool) (dflt : ν) (r l k : Nat) (t : Tree (List α) ν (r + 1 + k))
+    (hw : WF (r + 1 + k) t)
+    (hshape : (declared || !(fibersAt r k t).all
+      (fun f => (show List (List α × Tree (List α) ν r) from f).isEmpty)) = true) :
+    ∃ t', unflattenTS declared (fun c => c.take 1) (fun c => c.drop 1) dflt r l k t = some t' ∧
       WF (r + 2 + l + k) t' ∧
       content dflt (r + 2 + l + k) t' = (content dflt (r + 1 + k) t).map
         (fun pv => (liftN (splitTop (fun c => c.take 1) (fun c => c.drop 1) l) k pv.1, pv.2)) := by
-  unfold unflattenT
-  rw [hsome]
+  unfold unflattenTS
+  have hcond : (!declared && (fibersAt r k t).all
+      (fun f => (show List (List α × Tree (List α) ν r) from f).isEmpty)) = false := by
+    cases declared <;> simp at hshape ⊢
+    exact hshape
+  rw [hcond]
   simp only [Bool.false_eq_true, if_false]
-  apply transform_at_depth dflt dflt (r + 1) (r + 2 + l) _ _ k t hw
-  intro s hs hws
-  have hs' := List.all_eq_true.1 hsub s hs
-  exact unflatLv_spec dflt _ _ (lexSplit_list (α := α)) r l s
-    (fun h => by rw [h] at hs'; simp at hs') hws
+  unfold unflattenT
+  cases hg : allEmptyAt dflt r k t with
+  | true =>
+    simp only [if_true]
+    have hc : content dflt (r + 1 + k) t = [] := by
+      rw [allEmptyAt_eq_isEmpty] at hg
+      exact (isEmpty_iff_content dflt _ t).1 hg
+    refine ⟨_, rfl, (defaultTree_spec dflt _).1, ?_⟩
+    rw [hc, (defaultTree_spec dflt _).2]; rfl
+  | false =>
+    simp only [Bool.false_eq_true, if_false]
+    apply transform_at_depth dflt dflt (r + 1) (r + 2 + l) _ _ k t hw
+    intro s _ hws
+    exact unflatLv_spec dflt _ _ (lexSplit_list (α := α)) r l s hws
 
 /-- **Flatten then unflatten restores the tensor's content — at every depth, for every default.**
     `Tensor.flattenRanks(depth=k, levels=1, tuple / pair)` followed by
     `Tensor.unflattenRanks(depth=k, levels=1)` (which keeps the default since /repo e4536c9), on a
-    well-formed non-empty tensor whose fibers at depth `k` are non-empty and hold integer
-    coordinates: both succeed, the result is well-formed and has the original's content, relative
+    well-formed non-empty tensor (empty fibers at depth `k` allowed, /repo 97d752a) with integer
+    coordinates on rank `k`, declared shape or not: both succeed, the result is well-formed and has the original's content, relative
     to the same default; `z` (the implementation's `Payload(0)` fallback) is arbitrary, i.e. the
-    tensor default need not be 0.  (An empty fiber at depth `k ≥ 1` makes the unflatten raise —
-    open finding; more levels: `unflatten_flatten` with the hypotheses of
+    tensor default need not be 0.  (More levels: `unflatten_flatten` with the hypotheses of
     `flattenT_tuple_content_partial`.) -/
 theorem flatten_unflatten_roundtrip (mf : List ν → Option ν) (z dflt : ν) (r k : Nat)
     (t : Tree (List α) ν (r + 2 + k)) (hw : WF (r + 2 + k) t)
     (hne : isEmpty dflt (r + 2 + k) t = false)
-    (hsub : (subsAt (r + 2) k t).all (fun s => upperArB r 0 [1] s && !isEmpty dflt (r + 2) s) = true) :
+    (hsub : (subsAt (r + 2) k t).all (fun s => upperArB r 0 [1] s) = true) (declared : Bool) :
     ∃ u t', mergeT true false z (tupleComb (α := α)) mf dflt r 0 k t = some u ∧
-      unflattenT (fun c => c.take 1) (fun c => c.drop 1) dflt r 0 k u = some t' ∧
+      unflattenTS declared (fun c => c.take 1) (fun c => c.drop 1) dflt r 0 k u = some t' ∧
       WF (r + 2 + k) t' ∧ content dflt (r + 2 + k) t' = content dflt (r + 2 + k) t := by
   -- the flatten of one fiber at depth k, for any z
   have h1 : ∀ s ∈ subsAt (r + 2) k t, WF (r + 2) s →
@@ -437,8 +444,7 @@ theorem flatten_unflatten_roundtrip (mf : List ν → Option ν) (z dflt : ν) (
       MonoLv (tupleComb (α := α)) dflt r 0 s := by
     intro s hs hws
     have hs' := List.all_eq_true.1 hsub s hs
-    rw [Bool.and_eq_true] at hs'
-    have hm := monoLv_tuple dflt r 0 [1] s hws ((upperArB_iff r 0 [1] s).1 hs'.1)
+    have hm := monoLv_tuple dflt r 0 [1] s hws ((upperArB_iff r 0 [1] s).1 hs')
     refine ⟨?_, hm⟩
     show (merge2T (tupleComb 0) mf z dflt r s).map _ = _
     rw [merge2T_sorted (tupleComb 0) mf z dflt r s hm]
@@ -453,14 +459,12 @@ theorem flatten_unflatten_roundtrip (mf : List ν → Option ν) (z dflt : ν) (
       (unflatLv (fun c => c.take 1) (fun c => c.drop 1) r 0)) (fun q => q) k t hw
     (fun s hs hws => by
       have hs' := List.all_eq_true.1 hsub s hs
-      rw [Bool.and_eq_true] at hs'
-      obtain ⟨g, hg, hgw, hgc⟩ := unflatten_flatten dflt r 0 s hws hs'.1 (by simpa using hs'.2)
+      obtain ⟨g, hg, hgw, hgc⟩ := unflatten_flatten dflt r 0 s hws hs'
       refine ⟨g, ?_, hgw, ?_⟩
       · rw [(h1 s hs hws).1]; exact hg
       · rw [hgc, List.map_id'])
   refine ⟨u, t', hu, ?_, htw, ?_⟩
-  · unfold unflattenT
-    have hg : allEmptyAt dflt r k u = false := by
+  · have hg : allEmptyAt dflt r k u = false := by
       rw [allEmptyAt_eq_isEmpty]
       cases he : isEmpty dflt (r + 1 + k) u with
       | false => rfl
@@ -469,8 +473,14 @@ theorem flatten_unflatten_roundtrip (mf : List ν → Option ν) (z dflt : ν) (
         rw [huc, List.map_eq_nil_iff] at this
         rw [(isEmpty_iff_content dflt _ t).2 this] at hne
         cases hne
-    rw [hg]
-    simp only [Bool.false_eq_true, if_false]
+    have hnil : (fibersAt r k u).all
+        (fun f => (show List (List α × Tree (List α) ν r) from f).isEmpty) = false := by
+      cases hn : (fibersAt r k u).all (fun f => (show List (List α × Tree (List α) ν r) from f).isEmpty) with
+      | false => rfl
+      | true => rw [allEmptyAt_of_all_nil dflt r k u hn] at hg; cases hg
+    unfold unflattenTS unflattenT
+    rw [hnil, hg]
+    simp only [Bool.and_false, Bool.false_eq_true, if_false]
     rw [atDepth_bind _ _ k t u hu]
     exact ht'
   · rw [htc]
@@ -606,13 +616,13 @@ example : mergeLv false (0 : Int) (tupleComb (α := Int)) mfRaise 0 0 1 tC =
 example : ∃ g, unflatLv (fun c => c.take 1) (fun c => c.drop 1) 0 1
       (flatLv (tupleComb (α := Int)) (0 : Int) 0 1 tC) = some g ∧ WF 3 g ∧
       content (0 : Int) 3 g = content (0 : Int) 3 tC :=
-  unflatten_flatten (0 : Int) 0 1 tC tC_wf (by decide) (by decide)
+  unflatten_flatten (0 : Int) 0 1 tC tC_wf (by decide)
 
 -- unflatten of a directly built fiber with 2-tuple coordinates, an explicit default kept
 example : ∃ g, unflatLv (fun c => c.take 1) (fun c => c.drop 1) 0 0
       (mkC1 [([0, 1], 5), ([0, 2], 0), ([1, 0], 7)]) = some g ∧ WF 2 g ∧
       content (0 : Int) 2 g = [([[0], [1]], 5), ([[1], [0]], 7)] :=
-  unflatten_content (0 : Int) _ _ lexSplit_coord 0 0 _ (by decide) ((wfB_iff 1 _).1 (by decide))
+  unflatten_content (0 : Int) _ _ lexSplit_coord 0 0 _ ((wfB_iff 1 _).1 (by decide))
 
 -- swap A and B
 example : ∃ g, swapFiber (fun a b => a ++ b) List.reverse (fun c => c.take 1) (fun c => c.drop 1) (0 : Int) 1 tC = some g ∧
@@ -650,13 +660,16 @@ example : isort (κ := List Coord)
       ((content (0 : Int) 3 tD).map (fun pv => (liftN (permPoint [1, 0]) 1 pv.1, pv.2))) =
     [([[0], [0], [0]], 1), ([[0], [0], [1]], 3), ([[0], [2], [0]], 2), ([[1], [1], [5]], 4)] := by decide
 
--- unflatten rank 1 (2-tuples) below rank 0
+-- unflatten rank 1 (2-tuples) below rank 0, no declared shape; the fiber at A=2 has no element
 def tU : TC 2 := show List (Coord × TC 1) from
-  [([0], mkC1 [([0, 1], 5), ([1, 0], 0), ([1, 2], 6)]), ([3], mkC1 [([2, 2], 7)])]
-example : ∃ t', unflattenT (fun c => c.take 1) (fun c => c.drop 1) (0 : Int) 0 0 1 tU = some t' ∧ WF 3 t' ∧
+  [([0], mkC1 [([0, 1], 5), ([1, 0], 0), ([1, 2], 6)]), ([2], mkC1 []), ([3], mkC1 [([2, 2], 7)])]
+example : ∃ t', unflattenTS false (fun c => c.take 1) (fun c => c.drop 1) (0 : Int) 0 0 1 tU = some t' ∧ WF 3 t' ∧
       content (0 : Int) 3 t' = (content (0 : Int) 2 tU).map
         (fun pv => (liftN (splitTop (fun c => c.take 1) (fun c => c.drop 1) 0) 1 pv.1, pv.2)) :=
-  unflattenT_content_partial (0 : Int) 0 0 1 tU ((wfB_iff 2 tU).1 (by decide)) (by decide) (by decide)
+  unflattenT_content_partial false (0 : Int) 0 0 1 tU ((wfB_iff 2 tU).1 (by decide)) (by decide)
+example : (content (0 : Int) 2 tU).map
+      (fun pv => (liftN (splitTop (fun c => c.take 1) (fun c => c.drop 1) 0) 1 pv.1, pv.2)) =
+    [([[0], [0], [1]], 5), ([[0], [1], [2]], 6), ([[3], [2], [2]], 7)] := by decide
 
 -- merge ranks A,B of a two-rank tensor with absolute coordinates and the default merge function:
 -- B=0 collides (1+4), B=2 collides (2-2 = 0 is stored explicitly), the explicit default at B=1 is skipped
@@ -675,15 +688,15 @@ example : ∃ G : Fib Int (List Int), Sorted G ∧
 def tR : TC 2 := show List (Coord × TC 1) from
   [([1], mkC1 [([1], 0), ([2], 7)]), ([2], mkC1 [([0], 3)])]
 example : ∃ u t', mergeT true false (0 : Int) (tupleComb (α := Int)) mfRaise (7 : Int) 0 0 0 tR = some u ∧
-      unflattenT (fun c => c.take 1) (fun c => c.drop 1) (7 : Int) 0 0 0 u = some t' ∧
+      unflattenTS false (fun c => c.take 1) (fun c => c.drop 1) (7 : Int) 0 0 0 u = some t' ∧
       WF 2 t' ∧ content (7 : Int) 2 t' = content (7 : Int) 2 tR :=
-  flatten_unflatten_roundtrip mfRaise (0 : Int) (7 : Int) 0 0 tR ((wfB_iff 2 tR).1 (by decide)) (by decide) (by decide)
+  flatten_unflatten_roundtrip mfRaise (0 : Int) (7 : Int) 0 0 tR ((wfB_iff 2 tR).1 (by decide)) (by decide) (by decide) false
 example : content (7 : Int) 2 tR = [([[1], [1]], 0), ([[2], [0]], 3)] := by decide
--- … and below rank A (depth = 1) of a three-rank tensor with default 7
-example : ∃ u t', mergeT true false (0 : Int) (tupleComb (α := Int)) mfRaise (7 : Int) 0 0 1 tD = some u ∧
-      unflattenT (fun c => c.take 1) (fun c => c.drop 1) (7 : Int) 0 0 1 u = some t' ∧
-      WF 3 t' ∧ content (7 : Int) 3 t' = content (7 : Int) 3 tD :=
-  flatten_unflatten_roundtrip mfRaise (0 : Int) (7 : Int) 0 1 tD ((wfB_iff 3 tD).1 (by decide)) (by decide) (by decide)
+-- … and below rank A (depth = 1) of the three-rank tensor `tC` (default 7), whose B fiber at A=2 is empty
+example : ∃ u t', mergeT true false (0 : Int) (tupleComb (α := Int)) mfRaise (7 : Int) 0 0 1 tC = some u ∧
+      unflattenTS false (fun c => c.take 1) (fun c => c.drop 1) (7 : Int) 0 0 1 u = some t' ∧
+      WF 3 t' ∧ content (7 : Int) 3 t' = content (7 : Int) 3 tC :=
+  flatten_unflatten_roundtrip mfRaise (0 : Int) (7 : Int) 0 1 tC tC_wf (by decide) (by decide) false
 
 end C09.Ex
 
